@@ -89,3 +89,13 @@ if __name__ == '__main__':
     import json
     print(json.dumps(run(int(sys.argv[1]) if len(sys.argv) > 1 else 1,
                          int(sys.argv[2]) if len(sys.argv) > 2 else 600), indent=1)[:3000])
+
+
+def run_std(seed, n):
+    """Standard result shape (see props/base.py): a failing case = generated formula differs
+    from the real filter_utils function (translator / PyNum tie broken)."""
+    r = run(seed, n)
+    return {'evaluations': r['evaluations'], 'nontrivial': r['evaluations'], 'distribution': r['distribution'],
+            'differ': [{'case': i, 'which': 'generated formula vs filter_utils', 'call': b}
+                       for i, b in enumerate(r['failing'])],
+            'spec_fail': [], 'exceptions': [], 'samples': []}
